@@ -16,9 +16,11 @@ func isConditions(v ssa.Value) bool { return core.TypeIs(v.Type(), pkgCloudStora
 
 // condFieldsTouched lists the Conditions fields whose address is taken or
 // which are read in fn (on any value of type Conditions).
-func condFieldsTouched(fn *ssa.Function) map[string]bool {
+func condFieldsTouched(fn *ssa.Function) map[string]bool { return condFieldsTouchedIn(core.Family(fn)) }
+
+func condFieldsTouchedIn(fns []*ssa.Function) map[string]bool {
 	out := map[string]bool{}
-	for _, f := range core.Family(fn) {
+	for _, f := range fns {
 		for _, b := range f.Blocks {
 			for _, in := range b.Instrs {
 				switch x := in.(type) {
@@ -57,7 +59,9 @@ func R12() Rule {
 		c.Fn("parseConds")
 		c.Fn("validateConds")
 		// (a) what the parser writes the validator reads
-		w, r := condFieldsTouched(parse), condFieldsTouched(validate)
+		// the validator together with its helpers and the predicates of a dispatch table it walks
+		vscope := P.Scope(validate, func(f *ssa.Function) bool { return core.PkgPathOf(f) != core.PkgGcsemu })
+		w, r := condFieldsTouched(parse), condFieldsTouchedIn(vscope)
 		for _, f := range keysOf(w) {
 			c.Check(r[f], "R12", "a/parsed-field-is-validated/"+f, parse.Pos(), "validateConds reads "+f, "parseConds sets Conditions."+f+" but validateConds never looks at it: the precondition is accepted and silently ignored")
 		}
@@ -101,6 +105,51 @@ func R12() Rule {
 				call, ok := v.(*ssa.Call)
 				if !ok || !core.Call(call).IsFunc(core.PkgGcsemu, "fmtErrorfCode") {
 					c.Bad("R12", fmt.Sprintf("b/failure#%d", i+1), ret.Pos(), "validateConds fails with an error that carries no HTTP status")
+					continue
+				}
+				if _, isK := core.ConstInt(call.Call.Args[0]); !isK {
+					// table-driven: `for _, chk := range checks { if chk.failed(obj, cond) { return fmtErrorfCode(chk.code, …) } }`
+					// — every row of the table pairs its predicate's condition fields with its code
+					g, codeField, okT := core.TableFieldOf(call.Call.Args[0])
+					var predField string
+					for _, f := range core.FactsAt(ret.Block()) {
+						if pc, isC := f.Cond.(*ssa.Call); isC && f.Polarity && !pc.Call.IsInvoke() {
+							if g2, pf, ok2 := core.TableFieldOf(pc.Call.Value); ok2 && g2 == g {
+								predField = pf
+							}
+						}
+					}
+					rows := []core.TableRow(nil)
+					if okT && predField != "" {
+						rows = P.GlobalTable(g)
+					}
+					if len(rows) == 0 {
+						c.Unknown("R12", fmt.Sprintf("b/failure#%d", i+1), ret.Pos(), "the status code of this failure is not a constant and not a field of a dispatch-table row selected by that row's predicate")
+						continue
+					}
+					for ri, row := range rows {
+						nRet++
+						code, isK := core.ConstInt(row.Fields[codeField])
+						var pred *ssa.Function
+						switch x := row.Fields[predField].(type) {
+						case *ssa.Function:
+							pred = x
+						case *ssa.MakeClosure:
+							pred, _ = x.Fn.(*ssa.Function)
+						}
+						if !isK || pred == nil {
+							c.Unknown("R12", fmt.Sprintf("b/failure-row#%d", ri+1), ret.Pos(), "table row %d has no constant code / predicate function", ri+1)
+							continue
+						}
+						fields := condFieldsTouchedIn(core.Family(pred))
+						want := int64(412)
+						for n := range fields {
+							if strings.HasSuffix(n, "NotMatch") {
+								want = 304
+							}
+						}
+						c.Check(code == want, "R12", fmt.Sprintf("b/failure-code/%s", strings.Join(keysOf(fields), "+")), pred.Pos(), fmt.Sprintf("fails with %d", want), fmt.Sprintf("a failing %v precondition is answered with %d, expected %d (412 for match-kind and existence conditions, 304 for not-match ones)", keysOf(fields), code, want))
+					}
 					continue
 				}
 				nRet++
